@@ -134,17 +134,22 @@ fn braid_word_of(s: &Src) -> Option<(usize, Vec<i32>)> {
     }
 }
 
-pub struct IsoBuilt { pub base: Dg, pub moved: Dg, pub braid_moves: usize, pub r23_moves: usize, pub kinks: usize }
+pub struct IsoBuilt { pub base: Dg, pub moved: Dg, pub braid_moves: usize, pub r23_moves: usize, pub kinks: usize,
+    /// for closed-braid bases: (strands, word) before and after the braid moves
+    pub words: Option<((usize, Vec<i32>), (usize, Vec<i32>))> }
 
 pub fn build_iso(spec: &IsoSpec) -> Result<IsoBuilt, String> {
     let base = build(&spec.base)?;
     let mut moved = base.clone();
     let (mut nb, mut r23) = (0, 0);
+    let mut words = None;
     if spec.base.mods.is_empty() {
         if let Some((n, w)) = braid_word_of(&spec.base.src) {
+            let w0 = (n, w.clone());
             let (mut n, mut w) = (n, w);
             for m in &spec.bmoves { if let Some((n2, w2)) = apply_bmove(n, &w, m) { n = n2; w = w2; nb += 1; if matches!(m, BMove::BraidRel(_) | BMove::InsertPair(..) | BMove::RemovePair(_) | BMove::Stabilize(_)) { r23 += 1; } } }
             if nb > 0 { moved = braid_closure(n, &w).ok_or("bad braid after moves")?; }
+            words = Some((w0, (n, w)));
         }
     }
     let mut kinks = 0;
@@ -157,7 +162,7 @@ pub fn build_iso(spec: &IsoSpec) -> Result<IsoBuilt, String> {
             PMove::ReverseAll => if pure { moved.reverse_all() } else { moved },
         };
     }
-    Ok(IsoBuilt { base, moved, braid_moves: nb, r23_moves: r23, kinks })
+    Ok(IsoBuilt { base, moved, braid_moves: nb, r23_moves: r23, kinks, words })
 }
 
 pub fn iso_strategy(maxc: usize, maxmoves: usize) -> BoxedStrategy<IsoSpec> {
